@@ -7,6 +7,7 @@ import (
 	"go/token"
 	"go/types"
 	"os"
+	"os/exec"
 	"path/filepath"
 	"regexp"
 	"sort"
@@ -34,9 +35,43 @@ type world struct {
 	inlineExternal map[string]bool
 	trustedExt     map[string]*contract
 	classes        *typeClasses
+	specRec        map[*ssa.Function]bool
+}
+
+// withContractDeps adds, to the requested packages, every package of the module they depend on that carries a
+// contract file: those must be loaded from source so that their spec functions and contracts can be evaluated.
+func withContractDeps(patterns []string) []string {
+	args := append([]string{"list", "-deps", "-tags", "verif", "-f", "{{.ImportPath}} {{.Dir}}"}, patterns...)
+	cmd := exec.Command("go", args...)
+	cmd.Dir = repoDir
+	out, err := cmd.Output()
+	if err != nil {
+		return patterns
+	}
+	have := map[string]bool{}
+	for _, p := range patterns {
+		have[p] = true
+	}
+	res := append([]string{}, patterns...)
+	for _, ln := range strings.Split(string(out), "\n") {
+		f := strings.Fields(ln)
+		if len(f) != 2 || !strings.HasPrefix(f[0], modulePath) {
+			continue
+		}
+		if m, _ := filepath.Glob(filepath.Join(f[1], "zz_verif_contracts*.go")); len(m) == 0 {
+			continue
+		}
+		rel := "./" + strings.TrimPrefix(strings.TrimPrefix(f[0], modulePath), "/")
+		if !have[rel] {
+			have[rel] = true
+			res = append(res, rel)
+		}
+	}
+	return res
 }
 
 func loadWorld(patterns []string) (*world, error) {
+	patterns = withContractDeps(patterns)
 	cfg := &packages.Config{Mode: packages.LoadSyntax, Dir: repoDir, BuildFlags: []string{"-tags=verif"}}
 	pkgs, err := packages.Load(cfg, patterns...)
 	if err != nil {
@@ -54,7 +89,7 @@ func loadWorld(patterns []string) (*world, error) {
 	}
 	prog, spkgs := ssautil.Packages(pkgs, ssa.GlobalDebug|ssa.BareInits)
 	prog.Build()
-	w := &world{prog: prog, pkgs: pkgs, spkgs: spkgs, contracts: map[string]*contractFile{}, files: map[string]*ast.File{}, pkgOfFile: map[string]*packages.Package{}, trustedExt: map[string]*contract{}}
+	w := &world{prog: prog, pkgs: pkgs, spkgs: spkgs, contracts: map[string]*contractFile{}, files: map[string]*ast.File{}, pkgOfFile: map[string]*packages.Package{}, trustedExt: map[string]*contract{}, specRec: map[*ssa.Function]bool{}}
 	if b, err := os.ReadFile(filepath.Join(verifDir, "trusted", "stdlib.contracts.go")); err == nil {
 		cf, err := parseContractFile("trusted/stdlib.contracts.go", string(b))
 		if err != nil {
